@@ -14,9 +14,23 @@ def run(ck):
 
     ck.rule("N1 BUDGET(rfc1035NameUnpack, rfc1035HeaderUnpack, rfc1035RRUnpack, rfc1035QueryUnpack): every memcpy/dereference at buf + *off is covered, "
             "on its own path, by a guard comparing *off (+ n) with sz that was established after the last change of *off and not yet spent by `*off += c`")
+    # bytes guaranteed beyond each read (in source order), confirmed by reading: a guard that asks for MORE than is consumed rejects well-formed
+    # messages that end exactly there (e.g. a compression pointer in the last two octets); the label copy keeps 1 byte for the next length octet
+    SLACK = {"rfc1035NameUnpack": [0, 0, 1], "rfc1035HeaderUnpack": [10, 8, 6, 4, 2, 0], "rfc1035RRUnpack": [8, 6, 2, 0, 0], "rfc1035QueryUnpack": [2, 0]}
     for name, mr in (("rfc1035NameUnpack", 3), ("rfc1035HeaderUnpack", 6), ("rfc1035RRUnpack", 5), ("rfc1035QueryUnpack", 2)):
         fn = facts.fn(name)
-        Budget(ck, fn, off, sz, buf).check("N1.bounded-read", min_reads=mr, why="(out-of-bounds read on a short or hostile datagram)")
+        bd = Budget(ck, fn, off, sz, buf)
+        rs = bd.check("N1.bounded-read", min_reads=mr, why="(out-of-bounds read on a short or hostile datagram)")
+        per_line = {}
+        for s_, need, desc in rs:
+            per_line.setdefault((s_.line, desc), set()).add(Budget.slack(s_.env.get("$budget"), need))
+        got = [sorted(v, key=lambda x: (x is None, x))[0] if len(v) == 1 else None for k, v in sorted(per_line.items())]
+        if got == SLACK[name]:
+            ck.ok("N1.guards-are-tight", fn.where(), "%s: each guard asks for exactly the bytes its reads consume (slack per read %s)" % (name, got))
+        else:
+            ck.violation("N1.guards-are-tight", "N1|%s|guard-slack" % name, fn.where(),
+                         "%s: the bytes guaranteed beyond each read changed from %s to %s: a guard now demands more (well-formed messages ending exactly there are rejected) "
+                         "or less (reads past the datagram) than the decoder consumes" % (name, SLACK[name], got))
 
     ck.rule("N2 rfc1035NameUnpack: the recursive call for a compression pointer requires rdepth > 64 rejected, the pointer target ptr < sz, passes rdepth + 1 and the "
             "remaining destination (name + no, ns - no); a label is copied only if len <= ns - no - 1")
@@ -63,6 +77,25 @@ def run(ck):
                 ck.ok("N3.name-buffer-size", s.where(), "%s passes ns = %s (RFC1035_MAXHOSTNAMESZ)" % (fname, n))
             else:
                 ck.violation("N3.name-buffer-size", "N3|%s|ns" % fname, s.where(), "%s passes ns = %s to rfc1035NameUnpack, not RFC1035_MAXHOSTNAMESZ (256)" % (fname, E.key(a[5])))
+
+    ck.rule("N3b rfc1035RRUnpack: once RR->rdata was xfree()d on an error path it is reset (memset(RR, 0, sizeof) or rdata = nullptr) before returning, because the caller "
+            "destroys the record array again (double free otherwise)")
+    def dangling(ev, env, facts_):
+        if ev_call("xfree")(ev) and E.m_is_mem("rdata")(E.strip(ev["x"])["a"][0]):
+            env["$dangling"] = 1
+        elif ev_call("memset")(ev) and E.m_is_ref("RR")(E.strip(ev["x"])["a"][0]):
+            env.pop("$dangling", None)
+        elif ev.get("e") == "asg" and E.m_is_mem("rdata")(ev.get("lhs")):
+            env.pop("$dangling", None)
+    fld = ck.flow(rr, on_event=dangling)
+    frees = [s_ for s_ in fld.sites if ev_call("xfree")(s_.ev) and E.m_is_mem("rdata")(E.strip(s_.ev["x"])["a"][0])]
+    ck.need(len(frees) >= 2, "C37: xfree(RR->rdata) error paths not found")
+    for s_ in fld.find(ev_return()):
+        if s_.env.get("$dangling"):
+            ck.violation("N3b.no-dangling-rdata", "N3b|rfc1035RRUnpack|dangling-rdata", s_.where(),
+                         "rfc1035RRUnpack returns with RR->rdata freed but not cleared: rfc1035RRDestroy() frees it again (e.g. a PTR answer whose name has a compression loop)", fld.witness(s_))
+        else:
+            ck.ok("N3b.no-dangling-rdata", s_.where(), "no freed rdata pointer survives this return")
 
     ck.rule("N4 rfc1035MessageUnpack: an RR is unpacked only while off < sz; the query/answer arrays are sized by the same counts that bound the loops")
     mu = facts.fn("rfc1035MessageUnpack")
